@@ -423,6 +423,53 @@ theorem recv_prefix_typed_resumed (S S' R R' : Stream) (k : Nat) (ivS ivR : IV) 
     (advWireS_advFrameO (dgR := (R.dig.fs, R.dig.fr)) hsep hsent hownE hold hadv)
   simpa [hops] using this
 
+/-- the same for the incremental API (`StartMessageRead`, `ReadMessageBytes(chunk)`…, `EndMessageRead`) -/
+theorem recv_prefix_incremental_resumed (S S' R R' : Stream) (k : Nat) (ivS ivR : IV) (ops opsR : List SendOp)
+    (sent own old w : List WireFrame) (hivS : ivS.w0 < 2^32) (hivR : ivR.w0 < 2^32)
+    (hsep : ivS.tail ≠ ivR.tail) (hfl : ∀ op ∈ ops, op.2 ≤ 1)
+    (hclean : R.inMessage = false) (hbuf : R.recvBuf = [])
+    (hold : OldConnections k ivS (R.dig.fr, R.dig.fs) old)
+    (hsend : (S.setKey k ivS).sendAll ops = .ok (S', sent))
+    (hown : (R.setKey k ivR).sendAll opsR = .ok (R', own))
+    (hadv : AdvWireS k sent own old w) (chunk : Nat) (hchunk : 0 < chunk) (fuel : Nat) :
+    Stream.deliverIncFuel fuel chunk (R.setKey k ivR) w <+: messagesOf [] ops := by
+  obtain ⟨items, hsent, hops, hlim, _, _⟩ :=
+    sendAll_spec ops _ S' 0 sent (setKey_sendInv S k ivS) hsend
+  obtain ⟨itemsR, hownE, _, _, _, _⟩ :=
+    sendAll_spec opsR _ R' 0 own (setKey_sendInv R k ivR) hown
+  have hr : RecvInv (R.setKey k ivR) k ivS 0 0 :=
+    ⟨rfl, rfl, rfl, by simp [Stream.setKey], fun h => absurd rfl h⟩
+  have hd : ((R.setKey k ivR).dig.fr, (R.setKey k ivR).dig.fs) = (R.dig.fr, R.dig.fs) := by
+    simp [Stream.setKey, Dig.finalize, Dig.fs, Dig.fr]
+  have := deliverInc_prefixO (dg := (S.dig.fs, S.dig.fr)) (ownIV := ivR) (rdg := (R.dig.fr, R.dig.fs)) hchunk hivS hlim
+    (items_flags hops hfl) fuel (R.setKey k ivR) w 0 (Nat.zero_le _) hr (fun _ => ⟨rfl, hivR, hd⟩)
+    (advWireS_advFrameO (dgR := (R.dig.fs, R.dig.fr)) hsep hsent hownE hold hadv) hclean hbuf
+  simpa [hops] using this
+
+/-- the same for plain `ReceiveFrame` (GetSecret / GetFile): a prefix of the frame payloads -/
+theorem recv_prefix_frames_resumed (S S' R R' : Stream) (k : Nat) (ivS ivR : IV) (ops opsR : List SendOp)
+    (sent own old w : List WireFrame) (hivS : ivS.w0 < 2^32) (hivR : ivR.w0 < 2^32)
+    (hsep : ivS.tail ≠ ivR.tail)
+    (hold : OldConnections k ivS (R.dig.fr, R.dig.fs) old)
+    (hsend : (S.setKey k ivS).sendAll ops = .ok (S', sent))
+    (hown : (R.setKey k ivR).sendAll opsR = .ok (R', own))
+    (hadv : AdvWireS k sent own old w) :
+    Stream.deliverFrames (R.setKey k ivR) w <+: ops.map Prod.fst := by
+  obtain ⟨items, hsent, hops, hlim, _, _⟩ :=
+    sendAll_spec ops _ S' 0 sent (setKey_sendInv S k ivS) hsend
+  obtain ⟨itemsR, hownE, _, _, _, _⟩ :=
+    sendAll_spec opsR _ R' 0 own (setKey_sendInv R k ivR) hown
+  have hr : RecvInv (R.setKey k ivR) k ivS 0 0 :=
+    ⟨rfl, rfl, rfl, by simp [Stream.setKey], fun h => absurd rfl h⟩
+  have hd : ((R.setKey k ivR).dig.fr, (R.setKey k ivR).dig.fs) = (R.dig.fr, R.dig.fs) := by
+    simp [Stream.setKey, Dig.finalize, Dig.fs, Dig.fr]
+  have := deliverFrames_prefixO (dg := (S.dig.fs, S.dig.fr)) (ownIV := ivR) (rdg := (R.dig.fr, R.dig.fs)) hivS hlim
+    w (R.setKey k ivR) 0 (Nat.zero_le _) hr (fun _ => ⟨rfl, hivR, hd⟩)
+    (advWireS_advFrameO (dgR := (R.dig.fs, R.dig.fr)) hsep hsent hownE hold hadv)
+  have hp : items.map Item.plain = ops.map Prod.fst := by
+    rw [← hops, List.map_map]; rfl
+  simpa [hp] using this
+
 /-- `AdvWire` is the special case with nothing recorded -/
 theorem advWire_advWireS {k sent own w} (h : AdvWire k sent own w) : AdvWireS k sent own [] w := by
   intro g hg
